@@ -138,6 +138,45 @@ def run(ctx):
         res.nontrivial.add(hashlib.sha256(raw).digest()[:12])
         res.count("large_block_alterations", len(positions) + 44)
         res.count("large_block_bytes", len(raw))
+    # a block AT a checkpointed height (its id is pinned by the table, the evidence is not recomputed there): every single-bit
+    # flip and truncation of a reward-only block and of a block with a spend, with the checkpoint table holding the block's id
+    from skepticoin.humans import human as _human
+    from .c19 import patch_everywhere as _pe
+    for n_tx in (0, 0, 1):
+        chain.patch(horizon=-1)
+        keys = chain.Keys(rng, 3)
+        tree = chain.Tree(rng, keys, genesis=chain.custom_genesis(keys, target=bytes([0x7f]) + b"\xff" * 31))
+        tree.grow(3, fork_prob=0.0)
+        parent_state = tree.cs
+        blk = tree.extend(n_tx=n_tx)
+        raw = blk.serialize()
+        now = blk.timestamp + 5
+        saved_ = _pe("MAX_KNOWN_HASH_HEIGHT", blk.height) + _pe("KNOWN_HASHES", {blk.height: _human(blk.hash())})
+        try:
+            try:
+                parent_state.add_block(Block.deserialize(raw), now)
+            except Exception as e:
+                res.notes.append("the checkpointed block itself is refused: %r" % e)
+                continue
+            info = {"tree": [b.serialize().hex() for b in tree.blocks[:-1]], "now": now, "checkpointed_height": blk.height}
+            n_alt = 0
+            for i in range(8 * len(raw)):
+                m = bytearray(raw)
+                m[i // 8] ^= 1 << (i % 8)
+                classify(parent_state, bytes(m), now, blk.hash(), raw, res, {**info, "flipped_bit": i})
+                n_alt += 1
+            for n in range(len(raw)):
+                if classify(parent_state, raw[:n], now, blk.hash(), raw, res, {**info, "truncated_to": n}) != "u":
+                    res.violations.append({"kind": "a truncated encoding decodes", "length": n, "original": raw.hex()})
+                n_alt += 1
+            res.evaluations += n_alt
+            res.nontrivial.add(hashlib.sha256(raw + b"cp").digest()[:12])
+            res.count("alterations_of_a_checkpointed_block", n_alt)
+        finally:
+            for m_, v_ in saved_:
+                for name_ in ("MAX_KNOWN_HASH_HEIGHT", "KNOWN_HASHES"):
+                    if isinstance(v_, dict) == (name_ == "KNOWN_HASHES") and hasattr(m_, name_):
+                        setattr(m_, name_, v_)
     chain.unpatch()
     res.exhaustive = True
     res.rule = ("fresh fully valid blocks (0-3 signed spends) on random parents of random forked trees; for each block every "
